@@ -56,6 +56,12 @@ func (g *vfGen) runMore14(slice string) bool {
 }
 
 func (g *vfGen) genC06() {
+	g.genLimFlip()
+}
+
+// the limit changes while DetectReader is reading: the result must be the first-match path for
+// one of the two limits in force
+func (g *vfGen) genLimFlip() {
 	docs := [][]byte{
 		[]byte("  [1,"), []byte(`{"a":[1,2,3],"b":"text"}`), []byte("a,b\n1,2\n3,4\n5,"), []byte("{\"a\":1}\n{\"b\":2}\n{\"c\":"),
 		[]byte(g.jdocument()), []byte(g.jdocument()), g.textBytes(100), append(g.textBytes(40), g.bytes(40)...),
